@@ -5,6 +5,7 @@ package server
 import (
 	"encoding/binary"
 	"encoding/json"
+	"sync"
 
 	"github.com/dgraph-io/badger/v4"
 )
@@ -202,4 +203,26 @@ func (ds *Dataset) VerifInjectDuplicate(curie string, txnTime int64) (bool, erro
 		return false, err
 	}
 	return true, s.commitIDTxn()
+}
+
+// VerifMutex lets the simulator check that a lock its model believes held is really held.
+func (ds *Dataset) VerifMutex(kind string) *sync.Mutex {
+	if kind == "dataset.write" {
+		return &ds.WriteLock
+	}
+	return nil
+}
+
+func (dsm *DsManager) VerifMutex(kind string) *sync.Mutex {
+	if kind == "dsm.lock" {
+		return &dsm.lock
+	}
+	return nil
+}
+
+func (namespaceManager *NamespaceManager) VerifMutex(kind string) *sync.Mutex {
+	if kind == "ns.lock" {
+		return &namespaceManager.lock
+	}
+	return nil
 }
